@@ -293,6 +293,9 @@ def export_3MF(mesh, batch_size=4096, compression=zipfile.ZIP_DEFLATED, compress
     geometry = mesh.geometry
     graph = mesh.graph.to_networkx()
     base_frame = mesh.graph.base_frame
+    # only the node of the scene's camera is skipped, not every
+    # node that happens to be called "camera..."
+    camera_node = mesh.camera.name if mesh.has_camera else None
 
     # xml namespaces
     model_nsmap = {
@@ -374,7 +377,7 @@ def export_3MF(mesh, batch_size=4096, compression=zipfile.ZIP_DEFLATED, compress
 
                     # stream components
                     for node in graph.nodes:
-                        if node == base_frame or node.startswith("camera"):
+                        if node == base_frame or node == camera_node:
                             continue
                         if len(graph[node]) == 0:
                             continue
@@ -409,7 +412,7 @@ def export_3MF(mesh, batch_size=4096, compression=zipfile.ZIP_DEFLATED, compress
                 # stream build (objects on base_frame)
                 with xf.element("build", {"p:UUID": str(uuid.uuid4())}):
                     for node, data in graph[base_frame].items():
-                        if node.startswith("camera"):
+                        if node == camera_node:
                             continue
                         transform = " ".join(
                             str(i) for i in np.array(data["matrix"])[:3, :4].T.flatten()
